@@ -99,13 +99,23 @@ def minimize_case(M, m, n, rows, batch, kkind, bkind, epskind, l1kind, via="func
             kw["baseline"] = base
         est = ReceptorEstimator(np.ones((m, 2)), **kw)
         est.A = A; est.lb = lb; est.ub = ub
-        est.Epsilon = "heteroscedastic" if Eps is None else Eps
-        est.register_targets(B, W)
-        X, Bp, Bvar = est.minimize_variance(B, batch_size=batch, l2_eps=l2_eps, L1=L1, l1_eps=l1_eps)
+        if via == "estimator_kw":
+            # the variance model of THIS call is given as a keyword; the registered default ('heteroscedastic') must survive the call
+            est.Epsilon = "heteroscedastic"
+            est.register_targets(B, W)
+            X, Bp, Bvar = est.minimize_variance(B, Epsilon=Eps, batch_size=batch, l2_eps=l2_eps, L1=L1, l1_eps=l1_eps)
+            kept = isinstance(est.Epsilon, str) and est.Epsilon == "heteroscedastic"
+        else:
+            est.Epsilon = "heteroscedastic" if Eps is None else Eps
+            est.register_targets(B, W)
+            X, Bp, Bvar = est.minimize_variance(B, batch_size=batch, l2_eps=l2_eps, L1=L1, l1_eps=l1_eps)
+            kept = True
     X = np.asarray(X); Bp = np.asarray(Bp); Bvar = np.asarray(Bvar)
     Aeff, beff = fs.effective_model(A, K, base, kkind)
     EpsE = eps_effective(Eps, A, K, kkind, Aeff)
     goals = {"shapes": X.shape == (rows, n) and Bp.shape == (rows, m) and Bvar.shape == (rows, m)}
+    if via != "function":
+        goals["a variance model passed for one call does not replace the registered default"] = kept
     if not goals["shapes"]:
         return goals
     bs = rows if batch == "full" else int(batch)
@@ -171,6 +181,19 @@ def minimize_case(M, m, n, rows, batch, kkind, bkind, epskind, l1kind, via="func
                 goals[f"row{i}: minimal summed variance among fits of that quality"] = bool(float(variance(EpsE, xi)) <= float(variance(EpsE, ci)) * (1 + 2e-2) + 1e-3)
             if l1i is None:
                 goals[f"row{i}: variance <= variance of the ordinary fit"] = bool(float(variance(EpsE, xi)) <= float(variance(EpsE, list(xo))) * (1 + 5e-2) + 1e-3)
+                # a second competitor that is always available: the ordinary fit shrunk towards the lower bounds as far as the error budget allows
+                xo_ = np.array(xo, dtype=float); lo_ = np.array(lbl, dtype=float)
+                best_t = 1.0
+                for t_ in np.linspace(1.0, 0.0, 41):
+                    xt_ = lo_ + t_ * (xo_ - lo_)
+                    if np.sqrt(float(fs.sq_error(Aeff, beff, w, bi, list(xt_)))) <= e_o + float(l2_eps) - 1e-3:
+                        best_t = t_
+                    else:
+                        break
+                xsh = list(lo_ + best_t * (xo_ - lo_))
+                key = f"row{i}: minimal summed variance among fits of that quality"
+                ok_sh = bool(float(variance(EpsE, xi)) <= float(variance(EpsE, xsh)) * (1 + 2e-2) + 1e-3)
+                goals[key] = ok_sh and bool(goals.get(key, True))
     if ok_struct:
         # the stacked second-stage problem must be feasible whenever every row's documented problem is (checked without the stub's own
         # assumption); padded rows get the witness x = lb
@@ -206,6 +229,7 @@ def cases(tier, seed):
     # one stacked problem for two samples (the per-sample error constraints are rows of a reshaped residual); the batch grid itself is C05's subject
     add("2x2 K=vec Eps=explicit rows=2 batch=2", m=2, n=2, rows=2, batch=2, kkind="vec", bkind="vec", epskind="explicit", l1kind="none")
     add("estimator.minimize_variance 2x3 K=vec Eps=explicit", m=2, n=3, rows=1, batch=1, kkind="vec", bkind="vec", epskind="explicit", l1kind="none", via="estimator")
+    add("estimator.minimize_variance(Epsilon=...) 2x3 K=vec", m=2, n=3, rows=1, batch=1, kkind="vec", bkind="vec", epskind="explicit", l1kind="none", via="estimator_kw")
     add("estimator.minimize_variance 2x3 K=mat Eps=default", m=2, n=3, rows=1, batch=1, kkind="mat", bkind="vec", epskind="default", l1kind="none", via="estimator")
     if big:
         add("3x4 K=vec Eps=explicit L1=none rows=2", m=3, n=4, rows=2, batch=1, kkind="vec", bkind="vec", epskind="explicit", l1kind="none")
